@@ -1,11 +1,693 @@
-//! C08 — not built yet (see DESIGN.md §5 C08).
+//! C08 — ORDER BY, LIMIT/OFFSET and DISTINCT return correct sequences (DESIGN §5 C08).
+//!
+//! Space: every multiset of ≤ n rows over a row menu with ties and NULLs (`t(id, a, b, c)`, ids
+//! assigned 1..k) × index configuration (none or one index of a menu; index created before the rows
+//! and maintained through an UPDATE of the sort column and a DELETE, or created after the rows) ×
+//! every query of the SORT family (key lists of ≤ 2 keys × ASC/DESC, spelled as column / alias /
+//! position / expression; LIMIT × OFFSET menu; with/without WHERE; plain, DISTINCT, aggregate and
+//! set-operation paths).
+//! Oracle, independent of the engine's sort: U = the engine's result of the same query without
+//! ORDER BY / LIMIT / OFFSET.
+//!   (1) without LIMIT/OFFSET the result is a permutation of U (bag equality);
+//!   (2) the ORDER BY keys — re-evaluated by the harness from the table's rows (looked up by id) or
+//!       from the result columns — are non-decreasing under "NULLs last, direction per key";
+//!   (3) with LIMIT n OFFSET m the key sequence equals keys(ref_sort(U))[m .. m+n], the rows are a
+//!       sub-bag of U and the length is min(n, max(0, |U| − m)); without ORDER BY only sub-bag + length;
+//!   (4) DISTINCT (no LIMIT): the bag equals the set of distinct rows of the non-DISTINCT result.
 
-pub fn run(_tier: &str) -> i32 {
-    eprintln!("MACHINERY-ERROR C08 is not built yet");
-    2
+use std::collections::{BTreeMap, HashMap, HashSet};
+
+use serde_json::{json, Value};
+use vcore::exec::{self, Out};
+use vcore::report::Report;
+use vcore::util;
+use vibesql_storage::Database;
+
+use crate::tw::{self, V};
+
+const CREATE: &str = "CREATE TABLE t (id INT, a INT, b INT, c VARCHAR(10))";
+/// (a, b, c)
+const ROWS: [&str; 7] = ["0, 1, 'a'", "1, 0, 'b'", "1, 1, 'a'", "NULL, 0, 'ab'", "0, NULL, NULL", "NULL, NULL, 'b'", "2, 1, 'ab'"];
+const HISTORY: [&str; 2] = ["UPDATE t SET a = a + 1 WHERE id = 1", "DELETE FROM t WHERE id = 2"];
+
+#[derive(Clone, Debug)]
+struct Config {
+    key: &'static str,
+    ddl: Option<&'static str>,
+    history: bool,
 }
 
-pub fn replay(_case: &serde_json::Value) -> i32 {
-    eprintln!("MACHINERY-ERROR C08 is not built yet");
-    2
+fn configs(thorough: bool) -> Vec<Config> {
+    let idx: Vec<(&'static str, Option<&'static str>)> = vec![
+        ("none", None),
+        ("a", Some("CREATE INDEX i1 ON t (a)")),
+        ("a,b", Some("CREATE INDEX i1 ON t (a, b)")),
+        ("aD", Some("CREATE INDEX i1 ON t (a DESC)")),
+        ("aD,b", Some("CREATE INDEX i1 ON t (a DESC, b)")),
+        ("a,bD", Some("CREATE INDEX i1 ON t (a, b DESC)")),
+        ("c", Some("CREATE INDEX i1 ON t (c)")),
+        ("b", Some("CREATE INDEX i1 ON t (b)")),
+        ("c(1)", Some("CREATE INDEX i1 ON t (c(1))")),
+    ];
+    let mut out = vec![];
+    if thorough {
+        for (k, d) in &idx {
+            out.push(Config { key: k, ddl: *d, history: false });
+            out.push(Config { key: k, ddl: *d, history: true });
+        }
+    } else {
+        out.push(Config { key: "none", ddl: None, history: false });
+        out.push(Config { key: "a", ddl: idx[1].1, history: false });
+        out.push(Config { key: "a,b", ddl: idx[2].1, history: true });
+        out.push(Config { key: "aD,b", ddl: idx[4].1, history: true });
+    }
+    out
+}
+
+fn multisets(n_items: usize, max: usize) -> Vec<Vec<usize>> {
+    let mut out = vec![];
+    for k in 0..=max {
+        out.extend(util::multisets(n_items, k));
+    }
+    out
+}
+
+fn build_db(rows: &[usize], cfg: &Config) -> Result<Database, String> {
+    let mut db = exec::fresh(&[CREATE]);
+    // history variant: the index exists first and is maintained through INSERT, UPDATE and DELETE
+    if cfg.history {
+        if let Some(d) = cfg.ddl {
+            exec::must(&mut db, d);
+        }
+    }
+    if !rows.is_empty() {
+        let vals: Vec<String> = rows.iter().enumerate().map(|(i, r)| format!("({}, {})", i + 1, ROWS[*r])).collect();
+        let o = exec::exec(&mut db, &format!("INSERT INTO t VALUES {}", vals.join(", ")));
+        if !o.is_ok() {
+            return Err(format!("rows rejected: {}", o.brief()));
+        }
+    }
+    if cfg.history {
+        for h in HISTORY {
+            let o = exec::exec(&mut db, h);
+            if !o.is_ok() {
+                return Err(format!("history statement rejected: {} => {}", h, o.brief()));
+            }
+        }
+    } else if let Some(d) = cfg.ddl {
+        exec::must(&mut db, d);
+    }
+    Ok(db)
+}
+
+// ------------------------------------------------------------------------------------------------
+// queries
+
+#[derive(Clone, Debug, PartialEq)]
+enum KeyRef {
+    /// column of the base row (0 id, 1 a, 2 b, 3 c), looked up through the id in result column 0
+    Base(usize),
+    /// a + b of the base row
+    BaseSum,
+    /// column of the result row itself
+    Res(usize),
+}
+
+#[derive(Clone, Debug)]
+struct Q {
+    sql: String,
+    /// same query without ORDER BY / LIMIT / OFFSET
+    unordered: String,
+    /// for DISTINCT queries: `unordered` without DISTINCT
+    nodistinct: Option<String>,
+    keys: Vec<(KeyRef, bool)>,
+    limit: Option<usize>,
+    offset: Option<usize>,
+    path: &'static str,
+    spell: String,
+    dirs: String,
+    wname: &'static str,
+    lname: String,
+}
+
+fn lim_sql(l: Option<usize>, o: Option<usize>) -> (String, String) {
+    let mut s = String::new();
+    if let Some(n) = l {
+        s.push_str(&format!(" LIMIT {}", n));
+    }
+    if let Some(m) = o {
+        s.push_str(&format!(" OFFSET {}", m));
+    }
+    let name = match (l, o) {
+        (None, None) => "none".to_string(),
+        (Some(n), None) => format!("limit{}", n),
+        (None, Some(m)) => format!("offset{}", m),
+        (Some(n), Some(m)) => format!("limit{}_offset{}", n, m),
+    };
+    (s, name)
+}
+
+fn limit_menu(thorough: bool) -> Vec<(Option<usize>, Option<usize>)> {
+    if thorough {
+        let mut v = vec![];
+        for l in [None, Some(0), Some(1), Some(2), Some(5)] {
+            for o in [None, Some(0), Some(1), Some(5)] {
+                v.push((l, o));
+            }
+        }
+        v
+    } else {
+        vec![(None, None), (Some(0), None), (Some(1), None), (Some(2), None), (Some(2), Some(1)), (Some(5), Some(0)), (Some(1), Some(5)), (None, Some(1)), (Some(5), Some(2))]
+    }
+}
+
+fn dirs_name(d: &[bool]) -> String {
+    d.iter().map(|x| if *x { "D" } else { "A" }).collect()
+}
+
+pub fn query_menu_len(thorough: bool) -> usize {
+    query_menu(thorough).len()
+}
+
+fn query_menu(thorough: bool) -> Vec<Q> {
+    let mut qs = vec![];
+    let limits = limit_menu(thorough);
+    let col = ["id", "a", "b", "c"];
+    // key lists over base columns a, b, c
+    let mut lists: Vec<Vec<(usize, bool)>> = vec![];
+    for k in 1..=3 {
+        for d in [false, true] {
+            lists.push(vec![(k, d)]);
+        }
+    }
+    for k1 in 1..=3 {
+        for k2 in 1..=3 {
+            if k1 != k2 {
+                for d1 in [false, true] {
+                    for d2 in [false, true] {
+                        lists.push(vec![(k1, d1), (k2, d2)]);
+                    }
+                }
+            }
+        }
+    }
+    let wheres: Vec<(&str, &'static str)> = vec![("", "none"), (" WHERE a > 0", "a>0"), (" WHERE b = 1", "b=1"), (" WHERE a IS NOT NULL", "a_not_null")];
+    let n_where = if thorough { 4 } else { 2 };
+    // plain path, three spellings of the same key lists
+    for (li, list) in lists.iter().enumerate() {
+        let dirs: Vec<bool> = list.iter().map(|(_, d)| *d).collect();
+        let keys: Vec<(KeyRef, bool)> = list.iter().map(|(k, d)| (KeyRef::Base(*k), *d)).collect();
+        let spellings: Vec<(&str, String, String)> = vec![
+            ("column", "id, a, b, c".to_string(), list.iter().map(|(k, d)| format!("{}{}", col[*k], if *d { " DESC" } else { "" })).collect::<Vec<_>>().join(", ")),
+            ("alias", "id, a AS x, b AS y, c AS z".to_string(), list.iter().map(|(k, d)| format!("{}{}", ["", "x", "y", "z"][*k], if *d { " DESC" } else { "" })).collect::<Vec<_>>().join(", ")),
+            ("position", "id, a, b, c".to_string(), list.iter().map(|(k, d)| format!("{}{}", k + 1, if *d { " DESC" } else { "" })).collect::<Vec<_>>().join(", ")),
+            ("not_selected", "id".to_string(), list.iter().map(|(k, d)| format!("{}{}", col[*k], if *d { " DESC" } else { "" })).collect::<Vec<_>>().join(", ")),
+        ];
+        for (si, (sname, sel, ob)) in spellings.iter().enumerate() {
+            // quick: every list spelled as columns; the other spellings on a third of the lists each
+            if !thorough && si > 0 && li % 3 != si - 1 {
+                continue;
+            }
+            for (wi, (w, wname)) in wheres.iter().take(n_where).enumerate() {
+                if !thorough && wi > 0 && si > 0 {
+                    continue;
+                }
+                for (l, o) in &limits {
+                    let (ls, lname) = lim_sql(*l, *o);
+                    qs.push(Q {
+                        sql: format!("SELECT {} FROM t{} ORDER BY {}{}", sel, w, ob, ls),
+                        unordered: format!("SELECT {} FROM t{}", sel, w),
+                        nodistinct: None,
+                        keys: keys.clone(),
+                        limit: *l,
+                        offset: *o,
+                        path: "plain",
+                        spell: sname.to_string(),
+                        dirs: dirs_name(&dirs),
+                        wname,
+                        lname,
+                    });
+                }
+            }
+        }
+    }
+    // expression keys, id keys, no ORDER BY at all
+    let extra: Vec<(&str, &str, Vec<(KeyRef, bool)>, &str)> = vec![
+        ("id, a, b, c", "a + b", vec![(KeyRef::BaseSum, false)], "expr"),
+        ("id, a, b, c", "a + b DESC", vec![(KeyRef::BaseSum, true)], "expr"),
+        ("id, a + b AS e, c", "e", vec![(KeyRef::BaseSum, false)], "expr_alias"),
+        ("id, a + b AS e, c", "e DESC, c", vec![(KeyRef::BaseSum, true), (KeyRef::Base(3), false)], "expr_alias"),
+        ("id, c", "a + b DESC, c DESC", vec![(KeyRef::BaseSum, true), (KeyRef::Base(3), true)], "expr"),
+        ("id, a, b, c", "c, a + b", vec![(KeyRef::Base(3), false), (KeyRef::BaseSum, false)], "expr"),
+        ("id, a, b, c", "id DESC", vec![(KeyRef::Base(0), true)], "column"),
+        ("id, a, b, c", "a, id DESC", vec![(KeyRef::Base(1), false), (KeyRef::Base(0), true)], "column"),
+        ("id, a, b, c", "a DESC, b, c DESC", vec![(KeyRef::Base(1), true), (KeyRef::Base(2), false), (KeyRef::Base(3), true)], "column"),
+        ("id, a AS b, b AS a", "a, b", vec![(KeyRef::Base(2), false), (KeyRef::Base(1), false)], "alias_shadows_column"),
+    ];
+    for (sel, ob, keys, spell) in &extra {
+        for (w, wname) in wheres.iter().take(2) {
+            for (l, o) in &limits {
+                let (ls, lname) = lim_sql(*l, *o);
+                qs.push(Q {
+                    sql: format!("SELECT {} FROM t{} ORDER BY {}{}", sel, w, ob, ls),
+                    unordered: format!("SELECT {} FROM t{}", sel, w),
+                    nodistinct: None,
+                    keys: keys.clone(),
+                    limit: *l,
+                    offset: *o,
+                    path: "plain",
+                    spell: spell.to_string(),
+                    dirs: dirs_name(&keys.iter().map(|(_, d)| *d).collect::<Vec<_>>()),
+                    wname,
+                    lname,
+                });
+            }
+        }
+    }
+    for (w, wname) in wheres.iter().take(2) {
+        for (l, o) in &limits {
+            if l.is_none() && o.is_none() {
+                continue;
+            }
+            let (ls, lname) = lim_sql(*l, *o);
+            qs.push(Q { sql: format!("SELECT id, a, b, c FROM t{}{}", w, ls), unordered: format!("SELECT id, a, b, c FROM t{}", w), nodistinct: None, keys: vec![], limit: *l, offset: *o, path: "plain", spell: "no_order_by".into(), dirs: String::new(), wname, lname });
+        }
+    }
+    // DISTINCT path: keys are result columns
+    let dsel: Vec<(&str, Vec<(&str, Vec<(KeyRef, bool)>)>)> = vec![
+        ("a, b", vec![("", vec![]), ("a, b", vec![(KeyRef::Res(0), false), (KeyRef::Res(1), false)]), ("a DESC, b", vec![(KeyRef::Res(0), true), (KeyRef::Res(1), false)]), ("b DESC, a DESC", vec![(KeyRef::Res(1), true), (KeyRef::Res(0), true)]), ("2, 1 DESC", vec![(KeyRef::Res(1), false), (KeyRef::Res(0), true)])]),
+        ("a", vec![("", vec![]), ("a", vec![(KeyRef::Res(0), false)]), ("a DESC", vec![(KeyRef::Res(0), true)]), ("1", vec![(KeyRef::Res(0), false)])]),
+        ("c", vec![("", vec![]), ("c DESC", vec![(KeyRef::Res(0), true)])]),
+        ("a + b AS e", vec![("", vec![]), ("e", vec![(KeyRef::Res(0), false)])]),
+        ("c, a", vec![("c, a DESC", vec![(KeyRef::Res(0), false), (KeyRef::Res(1), true)])]),
+    ];
+    for (sel, obs) in &dsel {
+        for (ob, keys) in obs {
+            for (w, wname) in wheres.iter().take(2) {
+                for (l, o) in &limits {
+                    let (ls, lname) = lim_sql(*l, *o);
+                    let obs = if ob.is_empty() { String::new() } else { format!(" ORDER BY {}", ob) };
+                    qs.push(Q {
+                        sql: format!("SELECT DISTINCT {} FROM t{}{}{}", sel, w, obs, ls),
+                        unordered: format!("SELECT DISTINCT {} FROM t{}", sel, w),
+                        nodistinct: Some(format!("SELECT {} FROM t{}", sel, w)),
+                        keys: keys.clone(),
+                        limit: *l,
+                        offset: *o,
+                        path: "distinct",
+                        spell: if ob.is_empty() { "no_order_by".into() } else if ob.chars().next().unwrap().is_ascii_digit() { "position".into() } else { "column".into() },
+                        dirs: dirs_name(&keys.iter().map(|(_, d)| *d).collect::<Vec<_>>()),
+                        wname,
+                        lname,
+                    });
+                }
+            }
+        }
+    }
+    // aggregate path
+    let agg: Vec<(&str, &str, Vec<(KeyRef, bool)>, &str)> = vec![
+        ("SELECT a, COUNT(*) AS n, MAX(b) AS m FROM t GROUP BY a", "a", vec![(KeyRef::Res(0), false)], "column"),
+        ("SELECT a, COUNT(*) AS n, MAX(b) AS m FROM t GROUP BY a", "a DESC", vec![(KeyRef::Res(0), true)], "column"),
+        ("SELECT a, COUNT(*) AS n, MAX(b) AS m FROM t GROUP BY a", "n DESC, a", vec![(KeyRef::Res(1), true), (KeyRef::Res(0), false)], "alias"),
+        ("SELECT a, COUNT(*) AS n, MAX(b) AS m FROM t GROUP BY a", "2 DESC, 1", vec![(KeyRef::Res(1), true), (KeyRef::Res(0), false)], "position"),
+        ("SELECT a, COUNT(*) AS n, MAX(b) AS m FROM t GROUP BY a", "m, a DESC", vec![(KeyRef::Res(2), false), (KeyRef::Res(0), true)], "alias"),
+        ("SELECT a, COUNT(*) AS n, MAX(b) AS m FROM t GROUP BY a", "COUNT(*), a", vec![(KeyRef::Res(1), false), (KeyRef::Res(0), false)], "aggregate_expr"),
+        ("SELECT a, b, COUNT(*) AS n FROM t GROUP BY a, b", "a, b DESC", vec![(KeyRef::Res(0), false), (KeyRef::Res(1), true)], "column"),
+        ("SELECT a, b, COUNT(*) AS n FROM t GROUP BY a, b", "3 DESC, 1, 2", vec![(KeyRef::Res(2), true), (KeyRef::Res(0), false), (KeyRef::Res(1), false)], "position"),
+        ("SELECT c, SUM(a) AS sa FROM t GROUP BY c", "sa DESC, c", vec![(KeyRef::Res(1), true), (KeyRef::Res(0), false)], "alias"),
+        ("SELECT a, COUNT(*) AS n, MAX(b) AS m FROM t GROUP BY a", "", vec![], "no_order_by"),
+        ("SELECT COUNT(*) AS n, MAX(a) AS m FROM t", "", vec![], "no_group_no_order_by"),
+        ("SELECT COUNT(*) AS n, MAX(a) AS m FROM t", "1", vec![(KeyRef::Res(0), false)], "no_group_position"),
+    ];
+    for (base, ob, keys, spell) in &agg {
+        for (l, o) in &limits {
+            let (ls, lname) = lim_sql(*l, *o);
+            let obs = if ob.is_empty() { String::new() } else { format!(" ORDER BY {}", ob) };
+            qs.push(Q { sql: format!("{}{}{}", base, obs, ls), unordered: base.to_string(), nodistinct: None, keys: keys.clone(), limit: *l, offset: *o, path: "aggregate", spell: spell.to_string(), dirs: dirs_name(&keys.iter().map(|(_, d)| *d).collect::<Vec<_>>()), wname: "none", lname });
+        }
+    }
+    // set-operation path
+    let setops: Vec<(&str, &str, Vec<(KeyRef, bool)>, &str)> = vec![
+        ("SELECT a, b FROM t UNION ALL SELECT b, a FROM t", "1, 2", vec![(KeyRef::Res(0), false), (KeyRef::Res(1), false)], "position"),
+        ("SELECT a, b FROM t UNION ALL SELECT b, a FROM t", "a DESC, b", vec![(KeyRef::Res(0), true), (KeyRef::Res(1), false)], "column"),
+        ("SELECT a, b FROM t UNION ALL SELECT b, a FROM t", "", vec![], "no_order_by"),
+        ("SELECT a FROM t UNION ALL SELECT b FROM t", "1 DESC", vec![(KeyRef::Res(0), true)], "position"),
+        ("SELECT a FROM t UNION ALL SELECT b FROM t", "a", vec![(KeyRef::Res(0), false)], "column"),
+        ("SELECT a FROM t UNION SELECT b FROM t", "a DESC", vec![(KeyRef::Res(0), true)], "column"),
+        ("SELECT a FROM t UNION SELECT b FROM t", "1", vec![(KeyRef::Res(0), false)], "position"),
+        ("SELECT a, c FROM t INTERSECT SELECT a, c FROM t", "2 DESC, 1", vec![(KeyRef::Res(1), true), (KeyRef::Res(0), false)], "position"),
+        ("SELECT a FROM t EXCEPT SELECT b FROM t", "a", vec![(KeyRef::Res(0), false)], "column"),
+        ("SELECT c FROM t UNION ALL SELECT c FROM t WHERE a > 0", "c DESC", vec![(KeyRef::Res(0), true)], "column"),
+    ];
+    for (base, ob, keys, spell) in &setops {
+        for (l, o) in &limits {
+            let (ls, lname) = lim_sql(*l, *o);
+            let obs = if ob.is_empty() { String::new() } else { format!(" ORDER BY {}", ob) };
+            qs.push(Q { sql: format!("{}{}{}", base, obs, ls), unordered: base.to_string(), nodistinct: None, keys: keys.clone(), limit: *l, offset: *o, path: "setop", spell: spell.to_string(), dirs: dirs_name(&keys.iter().map(|(_, d)| *d).collect::<Vec<_>>()), wname: if base.contains("WHERE") { "a>0" } else { "none" }, lname });
+        }
+    }
+    qs
+}
+
+// ------------------------------------------------------------------------------------------------
+// oracle
+
+enum Verdict {
+    Holds { ties: bool, null_keys: bool },
+    Skipped,
+    Fails(String),
+}
+
+fn key_of(k: &KeyRef, row: &[V], base: &HashMap<String, Vec<V>>) -> Option<V> {
+    match k {
+        KeyRef::Res(i) => row.get(*i).cloned(),
+        KeyRef::Base(c) => base.get(&tw::row_key(&row[0..1])).map(|b| b[*c].clone()),
+        KeyRef::BaseSum => base.get(&tw::row_key(&row[0..1])).map(|b| match (&b[1], &b[2]) {
+            (V::Num(Some(x), _), V::Num(Some(y), _)) => V::Num(Some(x + y), (x + y) as f64),
+            _ => V::Null,
+        }),
+    }
+}
+
+fn judge(db: &Database, q_sql: &str, unordered_sql: &str, nodistinct_sql: Option<&str>, keys: &[(KeyRef, bool)], limit: Option<usize>, offset: Option<usize>, cache: &mut HashMap<String, Out>) -> Verdict {
+    let mut get = |sql: &str| -> Out { cache.entry(sql.to_string()).or_insert_with(|| exec::select(db, sql)).clone() };
+    let u = get(unordered_sql);
+    let r = exec::select(db, q_sql);
+    let (u, r) = match (&u, &r) {
+        (Out::Rows(_), Out::Rows(_)) => (tw::rows_v(&u).unwrap(), tw::rows_v(&r).unwrap()),
+        (_, Out::Panic(m)) => return Verdict::Fails(format!("the query panicked: {}", util::trunc(m, 200))),
+        _ => return Verdict::Skipped,
+    };
+    let base: HashMap<String, Vec<V>> = vcore::obs::rows_of(db, "T").iter().map(|x| tw::row_of(x)).map(|x| (tw::row_key(&x[0..1]), x)).collect();
+    let desc: Vec<bool> = keys.iter().map(|(_, d)| *d).collect();
+    let keyrow = |row: &Vec<V>| -> Option<Vec<V>> { keys.iter().map(|(k, _)| key_of(k, row, &base)).collect() };
+    let (bu, br) = (tw::bag_of(&u), tw::bag_of(&r));
+    // (4) DISTINCT returns each distinct row exactly once
+    if let Some(nd) = nodistinct_sql {
+        if let Some(ndr) = tw::rows_v(&get(nd)) {
+            let set: BTreeMap<String, usize> = tw::bag_of(&ndr).into_keys().map(|k| (k, 1)).collect();
+            if bu != set {
+                return Verdict::Fails(format!("DISTINCT result {} is not the set of distinct rows of {}", tw::fmt_rows(&u), tw::fmt_rows(&ndr)));
+            }
+        }
+    }
+    // (2) sortedness by re-evaluated keys
+    let kr: Option<Vec<Vec<V>>> = r.iter().map(keyrow).collect();
+    let Some(kr) = kr else {
+        return Verdict::Fails(format!("a result row carries an id that is not in the table: {}", tw::fmt_rows(&r)));
+    };
+    if !keys.is_empty() {
+        if let Some(pos) = tw::first_unsorted(&kr, &desc) {
+            return Verdict::Fails(format!("result not sorted by the ORDER BY keys (NULLs last) at row {}: {} (keys {})", pos, tw::fmt_rows(&r), tw::fmt_rows(&kr)));
+        }
+    }
+    let ku: Option<Vec<Vec<V>>> = u.iter().map(keyrow).collect();
+    let Some(ku) = ku else { return Verdict::Skipped };
+    let sorted = tw::ref_sort(ku, &desc);
+    let ties = sorted.windows(2).any(|w| tw::keys_equal(&w[0], &w[1]));
+    let null_keys = sorted.iter().any(|k| k.iter().any(|v| *v == V::Null));
+    if limit.is_none() && offset.is_none() {
+        // (1) permutation of the unordered result
+        if bu != br {
+            return Verdict::Fails(format!("result {} is not a permutation of the unordered result {}", tw::fmt_rows(&r), tw::fmt_rows(&u)));
+        }
+    } else {
+        // (3) the slice [m, m+n)
+        let m = offset.unwrap_or(0);
+        let avail = u.len().saturating_sub(m);
+        let want = limit.map(|n| n.min(avail)).unwrap_or(avail);
+        if r.len() != want {
+            return Verdict::Fails(format!("LIMIT {:?} OFFSET {:?} over {} rows must return {} rows, returned {}: {}", limit, offset, u.len(), want, r.len(), tw::fmt_rows(&r)));
+        }
+        if !tw::sub_bag(&br, &bu) {
+            return Verdict::Fails(format!("rows {} are not a sub-bag of the unlimited result {}", tw::fmt_rows(&r), tw::fmt_rows(&u)));
+        }
+        if !keys.is_empty() {
+            let exp = &sorted[m.min(sorted.len())..(m + want).min(sorted.len())];
+            if exp.len() != kr.len() || !exp.iter().zip(&kr).all(|(a, b)| tw::keys_equal(a, b)) {
+                return Verdict::Fails(format!("key sequence {} is not the slice [{}, {}) of the sorted keys {} (result {})", tw::fmt_rows(&kr), m, m + want, tw::fmt_rows(&sorted), tw::fmt_rows(&r)));
+            }
+        }
+    }
+    Verdict::Holds { ties, null_keys }
+}
+
+// ------------------------------------------------------------------------------------------------
+// cases / replay
+
+fn key_json(keys: &[(KeyRef, bool)]) -> Value {
+    json!(keys
+        .iter()
+        .map(|(k, d)| match k {
+            KeyRef::Base(c) => json!(["base", c, d]),
+            KeyRef::BaseSum => json!(["base_sum", 0, d]),
+            KeyRef::Res(c) => json!(["res", c, d]),
+        })
+        .collect::<Vec<_>>())
+}
+
+fn case_json(rows: &[usize], cfg: &Config, q: &Q) -> Value {
+    json!({
+        "create": CREATE,
+        "rows": rows,
+        "row_values": rows.iter().enumerate().map(|(i, r)| format!("({}, {})", i + 1, ROWS[*r])).collect::<Vec<_>>(),
+        "index": cfg.ddl,
+        "index_key": cfg.key,
+        "history": cfg.history,
+        "history_steps": if cfg.history { HISTORY.to_vec() } else { vec![] },
+        "query": q.sql,
+        "unordered": q.unordered,
+        "nodistinct": q.nodistinct,
+        "keys": key_json(&q.keys),
+        "limit": q.limit,
+        "offset": q.offset,
+        "note": "history=false: create, INSERT rows, index; history=true: create, index, INSERT rows, history_steps"
+    })
+}
+
+fn eval_case(case: &Value, verbose: bool) -> Result<Option<String>, String> {
+    let rows: Vec<usize> = case["rows"].as_array().map(|a| a.iter().filter_map(|x| x.as_u64().map(|u| u as usize)).collect()).unwrap_or_default();
+    let ddl: Option<&'static str> = case["index"].as_str().and_then(|d| configs(true).into_iter().find(|c| c.ddl == Some(d)).and_then(|c| c.ddl));
+    let cfg = Config { key: "replay", ddl, history: case["history"].as_bool().unwrap_or(false) };
+    let db = build_db(&rows, &cfg)?;
+    let keys: Vec<(KeyRef, bool)> = case["keys"]
+        .as_array()
+        .map(|a| {
+            a.iter()
+                .map(|k| {
+                    let c = k[1].as_u64().unwrap_or(0) as usize;
+                    let d = k[2].as_bool().unwrap_or(false);
+                    match k[0].as_str() {
+                        Some("base") => (KeyRef::Base(c), d),
+                        Some("base_sum") => (KeyRef::BaseSum, d),
+                        _ => (KeyRef::Res(c), d),
+                    }
+                })
+                .collect()
+        })
+        .unwrap_or_default();
+    let q = case["query"].as_str().ok_or("no query")?;
+    let u = case["unordered"].as_str().ok_or("no unordered query")?;
+    let nd = case["nodistinct"].as_str();
+    if verbose {
+        println!("-- table: {}", exec::select(&db, "SELECT * FROM t").brief());
+        println!("-- index: {:?}  maintained through history: {}", cfg.ddl, cfg.history);
+        println!("{}\n   => {}", u, exec::select(&db, u).brief());
+        println!("{}\n   => {}", q, exec::select(&db, q).brief());
+    }
+    let mut cache = HashMap::new();
+    Ok(match judge(&db, q, u, nd, &keys, case["limit"].as_u64().map(|x| x as usize), case["offset"].as_u64().map(|x| x as usize), &mut cache) {
+        Verdict::Fails(w) => Some(w),
+        _ => None,
+    })
+}
+
+pub fn replay(case: &Value) -> i32 {
+    match eval_case(case, true) {
+        Ok(Some(w)) => {
+            println!("VERDICT: violated — {}", w);
+            1
+        }
+        Ok(None) => {
+            println!("VERDICT: holds on this tree");
+            0
+        }
+        Err(e) => {
+            eprintln!("MACHINERY-ERROR {}", e);
+            2
+        }
+    }
+}
+
+// ------------------------------------------------------------------------------------------------
+
+#[derive(Default)]
+struct Res {
+    fails: Vec<(Vec<(&'static str, String)>, String, Value)>,
+    checked: u64,
+    skipped: u64,
+    with_ties: u64,
+    with_null_keys: u64,
+    by_path: BTreeMap<&'static str, u64>,
+    outcomes: HashSet<u64>,
+}
+
+pub fn run(tier: &str) -> i32 {
+    let mut rep = Report::new("C08", tier, "model_checking");
+    vibesql_types::verif::reset();
+    let thorough = tier == "thorough";
+    let max_secs: f64 = std::env::var("VERIF_C08_SECS").ok().and_then(|s| s.parse().ok()).unwrap_or(if thorough { 800.0 } else { 17.0 });
+    let cfgs = configs(thorough);
+    let menu = query_menu(thorough);
+    let mut dbs = multisets(ROWS.len(), if thorough { 4 } else { 2 });
+    if !thorough {
+        // a few larger tables with many ties and NULLs (every row value once; duplicates of the tie-heavy rows)
+        dbs.push(vec![0, 1, 2, 3, 4, 5, 6]);
+        dbs.push(vec![2, 1, 1, 0, 3, 5]);
+        dbs.push(vec![4, 3, 2, 2, 0]);
+    }
+    // examination order: the tables with most ties and NULLs first and configurations interleaved, so that a run cut
+    // short by the time cap has seen the dense cases; reporting below is simplest-first again
+    let mut by_size: Vec<usize> = (0..dbs.len()).collect();
+    by_size.sort_by_key(|i| std::cmp::Reverse(dbs[*i].len()));
+    let mut items: Vec<(usize, usize)> = vec![];
+    for &di in &by_size {
+        if dbs[di].len() > 2 {
+            for ci in 0..cfgs.len() {
+                items.push((di, ci));
+            }
+        }
+    }
+    for &di in &by_size {
+        if dbs[di].len() <= 2 {
+            for ci in 0..cfgs.len() {
+                items.push((di, ci));
+            }
+        }
+    }
+    let deadline = std::sync::atomic::AtomicBool::new(false);
+    let results: Vec<Option<Result<Res, String>>> = util::par_map(&items, |_, (di, ci)| {
+        if rep.start.elapsed().as_secs_f64() > max_secs {
+            deadline.store(true, std::sync::atomic::Ordering::Relaxed);
+            return None;
+        }
+        let (rows, cfg) = (&dbs[*di], &cfgs[*ci]);
+        let db = match build_db(rows, cfg) {
+            Ok(d) => d,
+            Err(e) => return Some(Err(e)),
+        };
+        let mut r = Res::default();
+        let mut cache: HashMap<String, Out> = HashMap::new();
+        for (qi, q) in menu.iter().enumerate() {
+            if qi % 100 == 0 && rep.start.elapsed().as_secs_f64() > max_secs {
+                deadline.store(true, std::sync::atomic::Ordering::Relaxed);
+                return None; // time cap: this item is not counted as examined
+            }
+            match judge(&db, &q.sql, &q.unordered, q.nodistinct.as_deref(), &q.keys, q.limit, q.offset, &mut cache) {
+                Verdict::Holds { ties, null_keys } => {
+                    r.checked += 1;
+                    r.with_ties += ties as u64;
+                    r.with_null_keys += null_keys as u64;
+                    *r.by_path.entry(q.path).or_insert(0) += 1;
+                }
+                Verdict::Skipped => r.skipped += 1,
+                Verdict::Fails(what) => {
+                    r.checked += 1;
+                    *r.by_path.entry(q.path).or_insert(0) += 1;
+                    let sig = vec![
+                        ("path", q.path.to_string()),
+                        ("spelling", q.spell.clone()),
+                        ("dirs", q.dirs.clone()),
+                        ("where", q.wname.to_string()),
+                        ("limit", q.lname.clone()),
+                        ("index", cfg.key.to_string()),
+                        ("history", cfg.history.to_string()),
+                    ];
+                    let what = format!("`{}` [rows {}; index {:?}; history {}] {}", q.sql, rows.iter().enumerate().map(|(i, x)| format!("({}, {})", i + 1, ROWS[*x])).collect::<Vec<_>>().join(","), cfg.ddl, cfg.history, what);
+                    r.fails.push((sig, what, case_json(rows, cfg, q)));
+                }
+            }
+        }
+        for o in cache.values() {
+            if let Out::Rows(rows) = o {
+                r.outcomes.insert(util::hash64(format!("{:?}", vcore::val::bag(rows)).as_bytes()));
+            }
+        }
+        Some(Ok(r))
+    });
+    let mut total = Res::default();
+    let mut confirmed: HashSet<String> = HashSet::new();
+    let mut done = 0u64;
+    let mut samples: Vec<Value> = vec![];
+    let mut order: Vec<(&(usize, usize), Option<Result<Res, String>>)> = items.iter().zip(results).collect();
+    order.sort_by_key(|((di, ci), _)| (dbs[*di].len(), *di, *ci));
+    for ((di, ci), r) in order {
+        let Some(r) = r else { continue };
+        let r = match r {
+            Ok(r) => r,
+            Err(e) => {
+                rep.machinery_error(format!("rows {:?} config {}: {}", dbs[*di], cfgs[*ci].key, e));
+                continue;
+            }
+        };
+        done += 1;
+        total.checked += r.checked;
+        total.skipped += r.skipped;
+        total.with_ties += r.with_ties;
+        total.with_null_keys += r.with_null_keys;
+        for (k, v) in r.by_path {
+            *total.by_path.entry(k).or_insert(0) += v;
+        }
+        total.outcomes.extend(r.outcomes);
+        if samples.len() < 6 && dbs[*di].len() >= 2 && (samples.len() < 2 || *ci > 0) {
+            samples.push(json!({"rows": dbs[*di].iter().map(|x| ROWS[*x]).collect::<Vec<_>>(), "index": cfgs[*ci].key, "history": cfgs[*ci].history, "queries": menu.len(), "failing": r.fails.len()}));
+        }
+        for (sig, what, case) in r.fails {
+            let key = sig.iter().map(|(k, v)| format!("{}={}", k, v)).collect::<Vec<_>>().join(";");
+            if confirmed.insert(key) {
+                if let Err(e) = tw::confirm(&|| eval_case(&case, false)) {
+                    rep.machinery_error(format!("case did not reproduce from scratch: {} :: {}", e, what));
+                    continue;
+                }
+            }
+            rep.violation(&sig, what, case);
+        }
+    }
+    let capped = deadline.load(std::sync::atomic::Ordering::Relaxed);
+    let (reach, vac) = vcore::report::reach_json(&["index_scan"]);
+    rep.set("states", json!(done));
+    rep.set("transitions", json!(total.checked));
+    rep.set("traces_validated_against_impl", json!(total.checked));
+    rep.set("databases", json!(dbs.len()));
+    rep.set("max_rows", json!(dbs.iter().map(|d| d.len()).max().unwrap_or(0)));
+    rep.set("index_configurations", json!(cfgs.iter().map(|c| format!("{}{}", c.key, if c.history { "+history" } else { "" })).collect::<Vec<_>>()));
+    rep.set("queries", json!(menu.len()));
+    rep.set("evaluations", json!(total.checked));
+    rep.set("checked_by_path", json!(total.by_path));
+    rep.set("skipped_rejected_queries", json!(total.skipped));
+    rep.set("cases_with_tied_keys", json!(total.with_ties));
+    rep.set("cases_with_null_keys", json!(total.with_null_keys));
+    rep.set("distinct_nontrivial", json!(total.outcomes.len()));
+    rep.set("exhaustive", json!(!capped));
+    rep.set("capped_by_time", json!(capped));
+    rep.set("reach", reach);
+    rep.set("vacuous_mechanisms", vac);
+    rep.set("samples", json!(samples));
+    rep.set("rule", json!("all multisets of rows up to the bound over a 7-value row menu × index configurations × the whole SORT query family; oracle: permutation of the unordered result, non-decreasing re-evaluated keys under NULLs-last/direction, LIMIT/OFFSET = slice of the reference-sorted key sequence + sub-bag + length, DISTINCT = set of distinct rows"));
+    rep.assume("a query the engine rejects (with or without its ORDER BY/LIMIT) is not a case; ties may come in any order");
+    println!(
+        "C08 {}: databases={} configs={} queries={} checked={} {:?} skipped={} with-ties={} with-null-keys={} distinct-unordered-results={} capped={}",
+        tier,
+        dbs.len(),
+        cfgs.len(),
+        menu.len(),
+        total.checked,
+        total.by_path,
+        total.skipped,
+        total.with_ties,
+        total.with_null_keys,
+        total.outcomes.len(),
+        capped
+    );
+    rep.finish()
 }
